@@ -130,21 +130,46 @@ def bindKey (strictKeys : Bool) (key : Option String) (oid : Nat) (s : Syms) : O
     | some prev => if strictKeys then (if prev == oid then some s else none) else some (s ++ [(k, oid)])
     | none => some (s ++ [(k, oid)])
 
-/-- `constants_preserve_rank` of the fixed matcher: a single-element constant operand of an operator
-matched against a pattern with a constant operand must not have more dimensions than every other
-operand is known to have (`rank` = known rank of a value / constant). -/
-def constsPreserveRank (g : GView) (rank : Nat → Option Nat) (pins : List Pat) (o : OpNode) : Bool :=
-  let hasConst := pins.any fun p => match p with | .const _ _ => true | _ => false
-  if !hasConst then true
-  else
-    let idx := (List.range o.ins.length).zip o.ins
-    idx.all fun (i, id) =>
-      match id.bind g.const? with
-      | some c =>
-        if c.shape.foldl (· * ·) 1 == 1 && c.shape.length > 0 then
-          idx.any fun (j, other) => j != i && (match other.bind rank with | some r => r ≥ c.shape.length | none => false)
-        else true
-      | none => true
+def isConstPat : Pat → Bool
+  | .const _ _ => true
+  | _ => false
+
+/-- `operator_constants_preserve_rank`: no single-element constant input of `o` has more dimensions
+than every other input of `o` is known to have (`rank` = known rank of a value / constant). -/
+def opConstsPreserveRank (g : GView) (rank : Nat → Option Nat) (o : OpNode) : Bool :=
+  let idx := (List.range o.ins.length).zip o.ins
+  idx.all fun (i, id) =>
+    match id.bind g.const? with
+    | some c =>
+      if c.shape.foldl (· * ·) 1 == 1 && c.shape.length > 0 then
+        idx.any fun (j, other) => j != i && (match other.bind rank with | some r => r ≥ c.shape.length | none => false)
+      else true
+    | none => true
+
+/-- the operators of an associative chain: `o` and, transitively, the producers of its inputs that
+have the same type and two present inputs (the operators `flattenGraph` descends through) -/
+def chainOps (g : GView) (name : String) : Nat → OpNode → List OpNode
+  | 0, o => [o]
+  | fuel + 1, o =>
+    o :: (o.ins.filterMap id).flatMap fun v =>
+      match g.source v with
+      | some so =>
+        if so.ty == name then
+          match so.ins with
+          | [some _, some _] => chainOps g name fuel so
+          | _ => []
+        else []
+      | none => []
+
+/-- `constants_preserve_rank` of the fixed matcher (commits 962ab02 + chain fix): if the operand
+patterns — flattened, for an associative+commutative operator — contain a constant pattern, the
+operator and every inner operator of its chain must pass `opConstsPreserveRank`. -/
+def constsPreserveRank (g : GView) (rank : Nat → Option Nat) (name : String) (pins : List Pat) (o : OpNode) : Bool :=
+  let isChain := associative o.ty && commutative o.ty && pins.length == 2
+  let pats := if isChain then pins.flatMap (flattenPat name 32) else pins
+  if !pats.any isConstPat then true
+  else if !isChain then opConstsPreserveRank g rank o
+  else (chainOps g name 32 o).all (opConstsPreserveRank g rank)
 
 structure MatchCfg where
   strictKeys : Bool
@@ -185,7 +210,7 @@ def opMatches (g : GView) (cfg : MatchCfg) (recur : Pat → Nat → Syms → Opt
     match (match chainMatch g recur name pins o s with
            | some s' => some s'
            | none => strictMatch recur pins o s) with
-    | some s' => if cfg.rankGuard && !constsPreserveRank g cfg.rank pins o then none else some s'
+    | some s' => if cfg.rankGuard && !constsPreserveRank g cfg.rank name pins o then none else some s'
     | none => none
 
 /-- `Pattern::test_impl` (value / constant / operator node `v`). -/
